@@ -17,7 +17,8 @@ CONSTANTS Tier,          \* "quick" | "thorough"
 \* ---- tokens are written as strings in the grammar and mapped to values here
 Special == ("65536" :> IntN(65536)) @@ ("65537" :> IntN(65537)) @@ ("1000" :> IntN(1000)) @@ ("/f" :> NameV("f")) @@ ("/g" :> NameV("g"))
            @@ ("0" :> IntN(0)) @@ ("1" :> IntN(1)) @@ ("2" :> IntN(2)) @@ ("3" :> IntN(3)) @@ ("5" :> IntN(5))
-           @@ ("6" :> IntN(6)) @@ ("7" :> IntN(7)) @@ ("9" :> IntN(9)) @@ ("-1" :> IntN(-1))
+           @@ ("6" :> IntN(6)) @@ ("7" :> IntN(7)) @@ ("9" :> IntN(9)) @@ ("-1" :> IntN(-1)) @@ ("(ab)" :> StrLit(<<97, 98>>))
+           @@ ("/a" :> NameV("a")) @@ ("100000" :> IntN(100000)) @@ ("65" :> IntN(65))
            @@ ("/x" :> NameV("x")) @@ ("/p" :> NameV("p")) @@ ("/add" :> NameV("add")) @@ ("/y" :> NameV("y"))
            @@ ("{" :> LBrace) @@ ("}" :> RBrace) @@ ("<C3A9FF>" :> StrLit(<<195, 169, 255>>))
 Tok(str) == IF str \in DOMAIN Special THEN Special[str] ELSE XNameV(str)
@@ -69,7 +70,11 @@ Outer == {"none"} \cup (IF Tier = "quick" THEN {"exec", "repeat2", "loop", "fora
 
 \* ---- dictionary stack lookup family
 LookAtoms == { <<"/x", "1", "def">>, <<"/x", "2", "def">>, <<"3", "dict", "begin">>, <<"end">>, <<"x">>,
-               <<"/x", "load">>, <<"/x", "where", "{", "pop", "5", "}", "{", "6", "}", "ifelse">>,
+               <<"/x", "load">>,
+               \* where returns the topmost dictionary defining the key: what it holds is what the name means,
+               \* and a store through it changes what the name means
+               <<"/x", "where", "{", "/x", "get", "}", "{", "6", "}", "ifelse">>,
+               <<"/x", "where", "{", "/x", "9", "put", "}", "if">>,
                <<"userdict", "begin">>, <<"currentdict", "/x", "known">>,
                <<"/add", "{", "pop", "7", "}", "def">>, <<"1", "2", "add">>,
                <<"{", "1", "2", "add", "}", "bind", "/p", "exch", "def">>, <<"p">>,
@@ -113,6 +118,18 @@ PickDictLit ==
     /\ \E n \in 1..3, k1 \in {"/x", "/y"}, k2 \in {"/x", "/y"}, k3 \in {"/x", "/y"}, v1 \in {"1", "2"}, v2 \in {"2", "5"}, v3 \in {"1", "5"},
           opener \in {"<<", "mark"}, q \in {"/x", "/y"} :
           stim' = [stim EXCEPT !.mid = <<opener>> \o SubSeq(<<k1, v1, k2, v2, k3, v3>>, 1, 2 * n) \o <<">>", "dup", "length", "exch", q, "get">>]
+    /\ phase' = "start" /\ UNCHANGED <<s, u>>
+
+\* ---- creating operators create (C02): an object made by one execution of a creating operator is
+\* changed, then the operator is executed again: the second object is new and untouched
+Creators == << <<"matrix">>, <<"3", "array">>, <<"2", "string">>, <<"2", "dict">>, <<"[", "1", "2", "]">>,
+               <<"<<", "/a", "1", ">>">>, <<"(ab)">>, <<"{", "1", "2", "}">> >>
+Mutator(j) == IF j \in {4, 6} THEN <<"dup", "/a", "7", "put">> ELSE IF j \in {3, 7} THEN <<"dup", "0", "65", "put">> ELSE <<"dup", "0", "5", "put">>
+PickFresh ==
+    /\ Family = "fresh" /\ phase = "pick1"
+    /\ \E j \in 1..Len(Creators), k \in 1..Len(Creators), tail \in {<<>>, <<"eq">>, <<"exch", "pop", "0", "get">>} :
+          /\ (tail = <<"exch", "pop", "0", "get">> => k \notin {4, 6})
+          /\ stim' = [stim EXCEPT !.mid = Creators[j] \o Mutator(j) \o Creators[k] \o tail]
     /\ phase' = "start" /\ UNCHANGED <<s, u>>
 
 \* ---- recursion and growth shapes against the real limits (C11, C01b)
@@ -192,10 +209,15 @@ FeedRun == /\ Family = "feed" /\ phase = "pick1" /\ s.status = "running" /\ (s.e
            /\ s' = IF s.nops > StepBound THEN Skip(s) ELSE Step(s)
            /\ UNCHANGED <<stim, phase, u>>
 
+\* loops announced for far more rounds than any budget allows, but left by exit in the first round:
+\* the budget counts operations executed, not operations announced
+HasTok(b, t) == \E j \in 1..Len(b) : b[j] = t
+BigLoops == {<<"100000", "{">> \o b \o <<"}", "repeat">> : b \in {x \in Body0 : HasTok(x, "exit")}}
+            \cup {<<"1", "1", "100000", "{">> \o b \o <<"}", "for">> : b \in {x \in Body0 : HasTok(x, "exit")}}
 PickBudget ==
     /\ Family = "budget"
     /\ phase = "pick1"
-    /\ \E o \in {"none", "loop", "repeat2"}, c \in Ctl1, b \in 1..MaxBudget :
+    /\ \E o \in {"none", "loop", "repeat2"}, c \in Ctl1 \cup BigLoops, b \in 1..MaxBudget :
           stim' = [stim EXCEPT !.outer = o, !.mid = c, !.n = b]
     /\ phase' = "start" /\ UNCHANGED <<s, u>>
 \* ---- the budget spans the calls (C11 + C12): a budgeted program delivered in two Execute
@@ -220,7 +242,7 @@ Run == /\ phase = "run" /\ s.status = "running"
                ELSE IF Family = "calls" THEN u     \* the unsplit twin is run to its end when needed (RunToEnd)
                ELSE u
        /\ UNCHANGED <<stim, phase>>
-Next == PickCtl \/ PickLook \/ PickDictLit \/ PickBudget \/ PickLimit \/ PickCalls \/ PickBudgetCalls \/ Start \/ Run \/ FeedStep \/ FeedRun
+Next == PickCtl \/ PickLook \/ PickDictLit \/ PickFresh \/ PickBudget \/ PickLimit \/ PickCalls \/ PickBudgetCalls \/ Start \/ Run \/ FeedStep \/ FeedRun
 
 Vector == [prog |-> IF Family = "feed" THEN stim.prog ELSE Feed0(stim), init |-> <<>>, maxops |-> s.maxops,
            status |-> s.status, errs |-> s.errs, ost |-> s.ost, dst |-> s.dst,
